@@ -323,6 +323,12 @@ func runRealOnce(a, b *rscript, order []int) (logA, logB string, inconclusive st
 	}
 	finish(sa, a != nil)
 	finish(sb, b != nil)
+	if strings.Contains(strings.Join(sa.log, "")+strings.Join(sb.log, ""), "broker-connection-closed-while-waiting") {
+		// keep what the gateway printed: the reason why it ended a session is there
+		p.kill()
+		sa.log = append(sa.log, "gateway output: "+p.output())
+		sb.log = append(sb.log, "gateway output: "+p.output())
+	}
 	return strings.Join(sa.log, "\n"), strings.Join(sb.log, "\n"), inconclusive
 }
 
@@ -414,19 +420,26 @@ func TestC15real(t *testing.T) {
 				if inc != "" && !strings.Contains(got, "broker-connection-closed-while-waiting") {
 					return // a deadline: inconclusive, not a verdict
 				}
-				first := ""
+				first, stepName := "", "?"
 				gl, wl := strings.Split(got, "\n"), strings.Split(want, "\n")
-				for i := range wl {
-					if i >= len(gl) || gl[i] != wl[i] {
-						g := "<missing>"
-						if i < len(gl) {
-							g = gl[i]
+				for i := 0; i < len(gl) || i < len(wl); i++ {
+					g, w := "<missing>", "<missing>"
+					if i < len(gl) {
+						g = gl[i]
+					}
+					if i < len(wl) {
+						w = wl[i]
+					}
+					if g != w {
+						first = fmt.Sprintf("step %d: with the other session %q, alone %q", i+1, g, w)
+						stepName = strings.SplitN(g, ":", 2)[0]
+						if g == "<missing>" {
+							stepName = strings.SplitN(w, ":", 2)[0]
 						}
-						first = fmt.Sprintf("step %d: with the other session %q, alone %q", i+1, g, wl[i])
 						break
 					}
 				}
-				sig := "real-listener:session-disturbed-by-another:" + strings.SplitN(strings.SplitN(first, "with the other session \"", 2)[1], " ", 2)[0]
+				sig := "real-listener:session-disturbed-by-another:" + stepName
 				rep.Add(explore.Violation{Property: "C15", Sig: sig, Detail: fmt.Sprintf("real gateway on loopback UDP: session %s running %q behaves differently when session running %q is interleaved (order %v; 0 = A's next step, 1 = B's): %s", who, own, other, j.order, first)})
 			}
 			check("A", la, solo[A.name][0], A.name, B.name)
